@@ -20,6 +20,9 @@ pub enum SrcKind {
   Hot,
   /// the crate's own `Subject` used as a (well-behaved) hot source
   Subject,
+  /// BehaviorSubject::new(0) / ReplaySubject as the hot source: a new subscription is first handed the current value / the history
+  BehaviorSubject,
+  ReplaySubject,
   /// endless polite producer of the given value (observables::repeat)
   Endless(i64),
   /// one of the crate's creation functions (reference: its definition as a cold script)
@@ -89,6 +92,9 @@ pub struct RInst {
 pub struct RSrc {
   pub kind: SrcKind,
   pub insts: Vec<RInst>,
+  /// Behavior/Replay subject sources: items pushed so far and the stored terminal
+  pub history: Vec<D>,
+  pub terminal: Option<Ev>,
 }
 
 #[derive(Clone, Debug)]
@@ -142,7 +148,7 @@ pub struct RefWorld {
 impl RefWorld {
   pub fn new(kinds: Vec<SrcKind>) -> RefWorld {
     RefWorld {
-      srcs: kinds.into_iter().map(|k| RSrc { kind: k, insts: vec![] }).collect(),
+      srcs: kinds.into_iter().map(|k| RSrc { kind: k, insts: vec![], history: vec![], terminal: None }).collect(),
       nodes: vec![],
       out: vec![],
       all: vec![],
@@ -234,6 +240,26 @@ impl RefWorld {
     let node = self.srcs[i].insts[inst].node;
     match kind {
       SrcKind::Hot | SrcKind::Subject => {}
+      SrcKind::BehaviorSubject | SrcKind::ReplaySubject => {
+        // the hand-over: current value / whole history, then the stored terminal if any
+        let hist: Vec<D> = if kind == SrcKind::ReplaySubject {
+          self.srcs[i].history.clone()
+        } else if self.srcs[i].terminal.is_none() {
+          vec![self.srcs[i].history.last().cloned().unwrap_or(D::I(0))]
+        } else {
+          vec![]
+        };
+        for d in hist {
+          if !self.srcs[i].insts[inst].alive {
+            break;
+          }
+          self.emit_raw(node, Ev::N(d));
+        }
+        if let Some(t) = self.srcs[i].terminal.clone() {
+          self.emit_raw(node, t);
+          self.srcs[i].insts[inst].alive = false;
+        }
+      }
       SrcKind::Endless(v) => {
         let mut n = 0;
         while self.srcs[i].insts[inst].alive && n < ENDLESS_CAP {
@@ -281,6 +307,12 @@ impl RefWorld {
 
   /// driver: push one event into hot source i
   pub fn hot_emit(&mut self, i: usize, ev: Ev) {
+    if matches!(self.srcs[i].kind, SrcKind::BehaviorSubject | SrcKind::ReplaySubject) {
+      match &ev {
+        Ev::N(d) => self.srcs[i].history.push(d.clone()),
+        t => self.srcs[i].terminal = Some(t.clone()),
+      }
+    }
     let n = self.srcs[i].insts.len();
     for k in 0..n {
       let node = self.srcs[i].insts[k].node;
